@@ -54,6 +54,7 @@ def run(chk):
     )
     chk.not_decided = "fairness, the numeric invariant |acquired| <= limit as an inequality over all schedules, timing."
     chk.explanation += " After the defect hunt: a woken waiter that cannot use the slot passes the wake-up on; re-acquiring a pooled connection is gated by the capacity test; a created or re-acquired connection is closed or tracked on every exit."
+    chk.explanation += " Round 4 / second hunt: nothing suspends between pool removal and accounting; the waiter search covers all queues; a closed connector refuses connect() and re-queuing; acquired connections with unsent data are aborted on close; the digest middleware releases the challenge response before its retry. Known: a woken waiter's slot is not reserved (F121)."
     chk.assumptions.append("asyncio delivers CancelledError at the current await only; Future.set_result/cancel semantics as documented")
     cls = repo.cls(MOD, CLS)
     connect = repo.func(MOD, f"{CLS}.connect")
